@@ -64,8 +64,9 @@ def explore(tier, seed_, years=scenarios.YEARS, per_year=None, replays=True, sna
             p = scenarios.Profile(rng, year=year, **base)
             p.n = dict({"w-2": 1, "1099-int": 0, "1099-div": 0, "1099-r": 0, "1099-g": 0, "1098": 0, "1099-oid": 0}, **counts)
             tid += 1
-            tr, res, solver, ans = scenarios.solve_scenario(year, ["1040"], p, rng, tid=tid, snap=snap, overrides={k2.replace("{year}", str(year)): v2 for k2, v2 in ov.items()})
-            out.append({"year": year, "request": ["1040"], "profile": p.describe(), "given": dict(ans.given), "kinds": dict(ans.kinds),
+            request = ["1040"] + (["nc_d-400"] if p.nc else [])
+            tr, res, solver, ans = scenarios.solve_scenario(year, request, p, rng, tid=tid, snap=snap, overrides={k2.replace("{year}", str(year)): v2 for k2, v2 in ov.items()})
+            out.append({"year": year, "request": request, "profile": p.describe(), "given": dict(ans.given), "kinds": dict(ans.kinds),
                         "trace": tr, "res": res, "variants": [], "sid": "%d/d%d" % (year, k)})
     return out
 
@@ -77,6 +78,12 @@ DIRECTED = [
      {}, {"1040.dependent_1_odc": "yes", "1040_s8812.advance_ctc_payments": "3250.00", "w-2:0.box_1": "100000.00", "w-2:0.box_2": "9000.00"}),
     ({"status": "MarriedFilingJointly", "dependents": 3, "ctc": [True, True, False, False], "under6": [True, False, False, False], "wage_scale": 120000},
      {}, {"1040.dependent_2_odc": "yes", "1040_s8812.advance_ctc_payments": "1500.00", "w-2:0.box_1": "140000.00", "w-2:0.box_2": "15000.00"}),
+    # NC return with records of out-of-state purchases on which another state charged more than NC would
+    ({"status": "Single", "dependents": 0, "wage_scale": 60000, "nc": True},
+     {"1098": 1},
+     {"nc_d-400.no_consumer_use_tax": "no", "nc_d-400_consumer_use_tax_wkst.full_records": "yes", "nc_d-400_consumer_use_tax_wkst.out_of_state_purchases": "1000.00",
+      "nc_d-400_consumer_use_tax_wkst.county_tax_pct": "0.07", "nc_d-400_consumer_use_tax_wkst.other_state_sales_tax": "80.00",
+      "w-2:0.box_1": "70000.00", "w-2:0.box_2": "8000.00", "w-2:0.box_16": "70000.00", "w-2:0.box_17": "3000.00"}),
     # a high earner (Additional Medicare Tax, Form 8959) with withholding that is not from a W-2
     ({"status": "Single", "dependents": 0, "wage_scale": 230000},
      {}, {"w-2:0.box_1": "230000.00", "w-2:0.box_3": "147000.00", "w-2:0.box_5": "230000.00", "w-2:0.box_2": "45000.00", "w-2:0.box_6": "3605.00",
